@@ -23,6 +23,7 @@ def pool_hists(seed, tier):
         hs.append([['plain', 'a-b'], ['apply', R['R'], s, e, True]])
         hs.append([['rainbow', 'aba'], ['apply', R['W'], s, e, True]])
     hs.append([['plain', 'abc'], ['apply', R['R'], 0, 2, True], ['apply', R['B'], 1, 3, True]])
+    hs.append([['plain', 'abc'], ['apply', R['o'], 0, 2, True], ['apply', R['q'], 1, 3, True]])     # non-canonical / multi-group texts
     hs.append([['plain', 'abc'], ['apply', R['R'], 0, 3, True], ['apply', R['R'], 1, 2, True]])
     hs.append([['plain', 'ab'], ['apply', R['R'], 1, 2, True], ['apply', R['R'], 0, 2, True]])     # self-concatenation merges at the seam
     hs.append([['plain', 'ab'], ['apply', '[32;31', 0, 2, True]])
